@@ -1116,6 +1116,88 @@ impl BangType {
 
 ////////////////////////////////////////////////////////////////////////////////////////////////////
 
+/// Verification hooks (off in every normal build). They only expose private
+/// items to the external checking harnesses and change no behaviour.
+#[cfg(any(kani, quick_xml_verif))]
+impl<R> Reader<R> {
+    /// Creates a reader over `reader` whose parser is in the given state.
+    /// `state`: 0 = Init, 1 = InsideMarkup, 2 = InsideText, 3 = InsideEmpty, 4 = Done
+    #[doc(hidden)]
+    pub fn verif_from_state(
+        reader: R,
+        state: u8,
+        offset: u64,
+        last_error_offset: u64,
+        config: Config,
+        opened_buffer: Vec<u8>,
+        opened_starts: Vec<usize>,
+    ) -> Self {
+        Self {
+            reader,
+            state: ReaderState::verif_new(
+                state,
+                offset,
+                last_error_offset,
+                config,
+                opened_buffer,
+                opened_starts,
+            ),
+        }
+    }
+
+    /// Returns `(state code, offset, last_error_offset, opened_buffer, opened_starts)`
+    #[doc(hidden)]
+    pub fn verif_state(&self) -> (u8, u64, u64, &[u8], &[usize]) {
+        let (state, buffer, starts) = self.state.verif_parts();
+        (
+            state,
+            self.state.offset,
+            self.state.last_error_offset,
+            buffer,
+            starts,
+        )
+    }
+}
+
+/// Verification hook: runs the private `BangType::parse`.
+/// `kind`: 0 = CData, 1 = Comment, 2 = DocType(`balance`).
+/// Returns `(length of the consumed slice, bytes used from chunk, balance after)`
+#[cfg(any(kani, quick_xml_verif))]
+#[doc(hidden)]
+pub fn verif_bang_parse(
+    kind: u8,
+    balance: i32,
+    buf: &[u8],
+    chunk: &[u8],
+) -> Option<(usize, usize, i32)> {
+    let mut bang_type = match kind {
+        0 => BangType::CData,
+        1 => BangType::Comment,
+        _ => BangType::DocType(balance),
+    };
+    let result = bang_type.parse(buf, chunk).map(|(bytes, used)| (bytes.len(), used));
+    let balance = match bang_type {
+        BangType::DocType(b) => b,
+        _ => 0,
+    };
+    result.map(|(len, used)| (len, used, balance))
+}
+
+/// Verification hook: DOCTYPE balance left in the scanner when `chunk` did not
+/// contain the end of the declaration
+#[cfg(any(kani, quick_xml_verif))]
+#[doc(hidden)]
+pub fn verif_doctype_balance_after(balance: i32, chunk: &[u8]) -> Option<i32> {
+    let mut bang_type = BangType::DocType(balance);
+    match bang_type.parse(&[], chunk) {
+        Some(_) => None,
+        None => match bang_type {
+            BangType::DocType(b) => Some(b),
+            _ => None,
+        },
+    }
+}
+
 #[cfg(test)]
 mod test {
     /// Checks the internal implementation of the various reader methods
